@@ -10,12 +10,13 @@ class P(vlib.Prop):
             "later in time; the sha256 of every layer, config, manifest, index, SBOM, lock file, tarball and layout tree is compared with the group's "
             "reference inside Coq by the verified validator `differing`. quick: 11 builds of one configuration; thorough: 36 cells x 3 repetitions x 3 "
             "configurations (multi-layer, single-layer, single-arch budget-1 with a service bundle). installif stage: configurations built to trigger "
-            "what was finding C01-F1 (fixed by c03e0c0): seven install_if universes (flat, chains three deep, several triggers, packages before their triggers) resolved 60/400 times in process "
-            "and 8/24 identical CLI builds of one of them - every observed install order must EQUAL the model's one order and all runs and digests must agree. canon stage: the canonicaliser, build-date, install-schedule and install_if models against the "
+            "what was finding C01-F1 (fixed by c03e0c0): nine install_if universes (flat, chains three deep, several triggers, packages before their triggers, versioned name=version entries, a bare-name list hiding a versioned one) resolved 60/400 times in process "
+            "and 8/24 identical CLI builds of one of them - every observed install order must EQUAL the order of Model/Resolver.v (resolve; for the CLI the second, locked resolution too) and all runs and digests must agree. canon stage: the canonicaliser, build-date and install-schedule models against the "
             "real functions (SetWorld, build.New, BuildImageFromLayers, GenerateIndex, tarfs ReadDir, groupByOriginAndSize, GetBuildDateEpoch, "
             "InstallPackages behind a server that releases packages in a scripted order, the resolver; groupByOriginAndSize is also called six more times per case on reshuffled input - one answer). "
             "matrix also builds a two-architecture configuration whose newest package date differs per architecture, without SOURCE_DATE_EPOCH, while one architecture's packages are served late (each in turn). "
-            "baseimage stage: the repository's image-on-a-base-image test configuration through build.New + BuildLayers, twice per architecture under different temp directories (judged in Go). A build case is non-trivial when it is not "
+            "baseimage stage: the repository's image-on-a-base-image test configuration through build.New + BuildLayers, as configured and with appended build/runtime repositories, twice per architecture under different temp directories; judged in Coq: etc/apk/repositories after build.New against the model of initializeApk (lists read from the source), the file in the layer against the generated build steps, nothing of the temp directory in the image, both runs equal. "
+            "every matrix build that shows an index: its org.opencontainers.image.created against the generated multi-architecture date fold over the image manifests' dates. canon also runs InstallPackages under GOMAXPROCS 1, 2, 3 (the limit of the goroutine group): requests must arrive as the limited model allows, the call must return. A build case is non-trivial when it is not "
             "the reference of its group; distinct = distinct command lines / case terms.")
     stages = (
         dict(name="matrix", cmd="c01", args=lambda t, s: ["-stage", "matrix"], timeout=3400),
@@ -31,21 +32,28 @@ class P(vlib.Prop):
         "map keys are distinct (environment names, architectures, directory entry names, directoryChildren keys)",
         "layer groups are non-empty, pairwise disjoint sets of uniquely named packages (so their tiebreakers differ)",
         "instants are integers; time.Time.After is >",
+        "errgroup.Group.SetLimit(n): Go blocks while n goroutines of the group run (the group's semantics are modelled, not its code); GOMAXPROCS >= 1",
+        "no step of a build other than SetRepositories writes etc/apk/repositories (compared on real builds by the canon and baseimage stages)",
     )
     level_text = ("Theorems c01_canon_* (world, packages, repositories, keyring, environment, architectures, directory listings, installed-db directory keys, "
                   "layer groups: output independent of input order / map iteration order, sorted, same elements), c01_keyring_schedule, c01_install_schedule "
-                  "(InstallPackages: same final state for EVERY completion order and interleaving), c01_bde / c01_bde_multiarch (build date is SOURCE_DATE_EPOCH "
-                  "or the order-independent maximum) are proved for all inputs about executable models whose sort/set calls are re-checked in the source on every run "
-                  "(Generated/C01Calls.v, c01_source_calls_present). c01_resolve_order holds in full since fix c03e0c0 (the install_if loop walks the dependency list by index: one install order for every install_if map and "
-                  "dependency list; formerly refuted, finding C01-F1); c01_tarball_order is REFUTED with a witness (finding C01-F2) and its strongest partial form proved. pgzip thread-count independence, goroutine scheduling, umask/TMPDIR/TZ/cwd influence and byte-level cache "
+                  "(InstallPackages: same final state for EVERY completion order and interleaving) with c01_install_limit_only_removes_schedules / _removes / _cannot_block / _of_one_blocks_refuted "
+                  "(g.SetLimit(GOMAXPROCS + k), k read from the source: every run of the limited group is one of those schedules, which ones the limit removes, it cannot block, a limit of one would), "
+                  "c01_bde / c01_bde_multiarch (stated about the CODE of the two date loops as goextract reads it - which values are compared, assigned, returned - run by an interpreter: SOURCE_DATE_EPOCH "
+                  "or the maximum, for every completion order of the architectures; c01_bde_multiarch_last_finisher_refuted: the same loop comparing with the configured date depends on the order), "
+                  "c01_repositories_file_independent_of_tempdir (initializeApk's lists read from the source, C10's generated build steps for every valuation of their conditions: the build-time file names the base image's temp path, "
+                  "the serialised one is the runtime list whatever that path; _without_rewrite_refuted) are proved for all inputs about executable models whose sort/set calls are re-checked in the source on every run "
+                  "(Generated/C01Calls.v, c01_source_calls_present). c01_resolve_order holds in full since fix c03e0c0, stated over Model/Resolver.v's install_if loop (versioned entries included; one list for every universe and dependency list, "
+                  "no fuel exhaustion, no failure; formerly refuted, finding C01-F1); c01_tarball_order is REFUTED with a witness (finding C01-F2; repair proposed in fixes/C01-F2.patch) and its strongest partial form proved. pgzip thread-count independence, goroutine scheduling, umask/TMPDIR/TZ/cwd influence and byte-level cache "
                   "transparency are NOT proved: they are explored by the build matrix.")
     level_note = ("partial: proof covers the order/schedule/date logic; exploration (repeated real builds compared by sha256) covers pgzip, the scheduler, the host environment "
                   "and the cache. trusted: Coq kernel, goextract, Go harness/printer, sha256 of the harness; modelled not verified: the Go text of the modelled functions")
     design_ref = "DESIGN.md 7 C01"
     modelled_not_verified = ("SetWorld, initializeApk/postBuildSetApk (sets.List), InitKeyring's concurrent writes, BuildImageFromLayers' environment, generateIndexWithMediaType / "
                              "GenerateIndexSBOM architecture order, tarfs ReadDir, sortTarHeaders' directory keys, groupByOriginAndSize's final sort and tiebreaker, "
-                             "GetBuildDateEpoch, the multi-arch date fold, InstallPackages' goroutine structure, the install_if loop of GetPackageWithDependencies and ggcr's "
-                             "tarball.MultiWrite member order are modelled by hand (Model/Repro.v); presence, position and comparator of each sort/set call and the absence of "
+                             "InstallPackages' goroutine structure and errgroup's limit, and ggcr's "
+                             "tarball.MultiWrite member order are modelled by hand (Model/Repro.v, Model/Repro2.v); the two date loops (GetBuildDateEpoch, buildImageComponents), initializeApk's repository lists and appends, "
+                             "the step lists of the build (C10's generator) and the argument of SetLimit are READ from the source and interpreted; the install_if loop is Model/Resolver.v's; presence, position and comparator of each sort/set call and the absence of "
                              "time.Now in image-producing files are re-read from the source on every run; pgzip, archive/tar, go-containerregistry, the Go scheduler and the "
                              "host are exercised by the matrix only")
 
